@@ -11,6 +11,7 @@ let parse_step (s : Stdlib.String.t) : op =
   match String.split_on_char ':' s with
   | "R" :: [h] -> OpRead (parse_bytes h)
   | "R" :: [a; b] -> OpRead (parse_bytes (a ^ ":" ^ b))
+  | "M" :: [_; h] -> OpRead (parse_bytes h)      (* many queued copies, one read: only the first frame is consumed *)
   | ("P" | "K" | "B" as k) :: f -> OpWrite (mk_event k f)
   | ("TP" | "TK" | "TB" as k) :: f -> OpTryWrite (mk_event (String.sub k 1 1) f)
   | _ -> failwith "bad step"
